@@ -34,7 +34,16 @@ func genScenario(t *rapid.T) *modsim.Scenario {
 			if len(en) > 0 {
 				sc.Steps = append(sc.Steps, modsim.Step{Op: op, Mods: en})
 			}
-			sc.Steps = append(sc.Steps, modsim.Step{Op: "manage"})
+			mg := modsim.Step{Op: "manage"}
+			if rapid.IntRange(0, 3).Draw(t, "overlapping_passes") == 0 {
+				// one or two further goroutines change what is wanted and ask for a pass at the same time
+				for j := rapid.IntRange(1, 2).Draw(t, "concurrent_requests"); j > 0; j-- {
+					if ms := modsim.Subset(t, sc.Modules, "ctoggle"); len(ms) > 0 {
+						mg.Conc = append(mg.Conc, modsim.Step{Op: rapid.SampledFrom([]string{"enable", "disable"}).Draw(t, "ctoggleop"), Mods: ms})
+					}
+				}
+			}
+			sc.Steps = append(sc.Steps, mg)
 		}
 	}
 	// now and then Shutdown is called by two or three goroutines at once (signal handler and API request)
@@ -122,6 +131,12 @@ func classify(sc *modsim.Scenario, res *modsim.Result) []string {
 	}
 	if sc.Steps[0].US > 0 {
 		cls = append(cls, "management_pass_requested_while_start_runs")
+	}
+	for _, st := range sc.Steps {
+		if len(st.Conc) > 0 {
+			cls = append(cls, "overlapping_management_passes")
+			break
+		}
 	}
 	if sc.Steps[len(sc.Steps)-1].US > 0 {
 		cls = append(cls, "shutdown_called_by_several_goroutines")
